@@ -12,6 +12,7 @@ import (
 	"fmt"
 	"os"
 	"runtime"
+	"runtime/pprof"
 	"strconv"
 	"strings"
 
@@ -31,7 +32,16 @@ func main() {
 	workers := flag.Int("workers", 0, "worker processes (default: all cores)")
 	verifDir := flag.String("verif", "/verif", "verification directory")
 	info := flag.String("info", "", "extra key=value pairs recorded in the evidence (comma separated)")
+	dump := flag.Int("dump", -1, "with -prop: print the plan of run N of the batch and exit")
+	cpuprofile := flag.String("cpuprofile", "", "write a CPU profile (replay)")
 	flag.Parse()
+	if *cpuprofile != "" {
+		f, err := os.Create(*cpuprofile)
+		if err == nil {
+			pprof.StartCPUProfile(f)
+			defer pprof.StopCPUProfile()
+		}
+	}
 
 	seed := uint64(1)
 	s := *seedFlag
@@ -54,8 +64,20 @@ func main() {
 	}
 
 	switch {
+	case *dump >= 0:
+		p := engine.Registry[*prop]
+		if p == nil {
+			fmt.Fprintf(os.Stderr, "ERROR: unknown property %q\n", *prop)
+			os.Exit(2)
+		}
+		plan := p.Generate(engine.NewPRNG(engine.Mix(seed, uint64(*dump))), *dump, *tier)
+		plan.Format, plan.Property, plan.Seed, plan.Run, plan.Tier, plan.World = 1, p.ID, seed, *dump, *tier, p.World
+		b, _ := json.MarshalIndent(plan, "", " ")
+		fmt.Println(string(b))
 	case *replay != "":
-		os.Exit(engine.Replay(*replay, *quiet))
+		code := engine.Replay(*replay, *quiet)
+		pprof.StopCPUProfile()
+		os.Exit(code)
 	case *worker:
 		p := engine.Registry[*prop]
 		if p == nil {
